@@ -2,7 +2,7 @@
 from checks import symgen, refqr
 
 ID = 'C06'
-PROP_MODULES = ['QRV.Props.C06', 'QRV.Props.C06RMQR']
+PROP_MODULES = ['QRV.Props.C06', 'QRV.Props.C06Micro', 'QRV.Props.C06RMQR']
 RULE = ('bitmaps of sizes {0, 1, 7, 11..29, every valid size of every symbology and +-1, 43x7-style non-square, 181, 185, 1000x3}, origins {(0,0), (5,5), (-3,-3)}, contents: blank, '
         'all dark, noise, valid symbols of every symbology cropped / padded / pasted on a canvas of another version\'s size / shifted to a non-zero origin / with another version\'s '
         'format information stamped in / fed to the wrong symbology\'s decoder; each fed to all three DecodeBitmap functions under recover(), with a memory limit. '
@@ -14,13 +14,13 @@ TRUSTED = [
     'symbol models (with explicit index / nil / bounds checks as panic outcomes) tied by correspondence',
 ]
 ASSUMPTIONS = ['images are those constructible with bitmap.New(rect)+SetBinary: Pix has Stride*Dy bytes']
-PARTIAL = 'QR: totality (no panic, termination) is a theorem for every well-formed bitmap; Micro QR / rMQR: wrong-size bitmaps are proved to be errors, totality on right-size bitmaps is exercised; the allocation bound is measured, not proved'
+PARTIAL = 'totality (no panic, termination) is a theorem for every well-formed bitmap for all three decoders (qr_decode_total, micro_decode_total, rmqr_decode_total); the allocation bound is measured, not proved'
 MANIFEST = {
-    'technique': 'Lean 4: total no-panic/termination theorem for the QR decoder model (every index, nil, bound and fuel branch), wrong-size rejection for Micro QR / rMQR; malformed-bitmap differential runs under recover()',
+    'technique': 'Lean 4: total no-panic/termination theorems for the QR, Micro QR and rMQR decoder models (every index, nil, bound and fuel branch), wrong-size rejection; malformed-bitmap differential runs under recover()',
     'text': ('QRV/Props/C06.lean proves for the QR decoder model, in which every Go index expression, nil dereference, slice bound and explicit panic is an explicit branch and every loop has fuel: for EVERY '
              'bitmap constructible with bitmap.New+SetBinary (any size, origin, contents) DecodeBitmap returns a result or an error - never a panic, never fuel exhaustion (placement walk, de-interleave, '
-             'Reed-Solomon incl. Euclid/Chien, segment loop). For Micro QR and rMQR a bitmap whose size matches no version is proved to be answered with an error. Totality of those two decoders on right-size '
-             'bitmaps and the allocation bound are exercised on malformed bitmaps (sizes, origins, cropped/padded/cross-fed symbols, arbitrary codewords incl. phantom error locations) under recover().'),
+             'Reed-Solomon incl. Euclid/Chien, segment loop). Props/C06Micro.lean and C06RMQR.lean prove the same for the Micro QR and rMQR decoder models (per-version facts - fuel of the walk, bytes offered by the walk >= total codewords incl. the D18 partial byte, table lookups - by kernel evaluation over the regenerated tables); '
+             'a bitmap whose size matches no version is proved to be answered with an error. The allocation bound is exercised on malformed bitmaps (sizes, origins, cropped/padded/cross-fed symbols, arbitrary codewords incl. phantom error locations) under recover().'),
     'note': 'Trusted: Lean kernel; models tied by correspondence; allocation bound is measured by the harness, not proved.',
 }
 
